@@ -145,6 +145,12 @@ func (le *LinearEval) eval(e ast.Expr, depth int) Linear {
 		if IsBuiltin(le.Info, x, "len") && len(x.Args) == 1 {
 			return linAtom("len(" + le.atomName(x.Args[0], depth) + ")")
 		}
+		// a method call without arguments is an atom named by its receiver: x.M()
+		if sel, ok := x.Fun.(*ast.SelectorExpr); ok && len(x.Args) == 0 {
+			if _, isMethod := le.Info.Selections[sel]; isMethod {
+				return linAtom(le.atomName(sel.X, depth) + "." + sel.Sel.Name + "()")
+			}
+		}
 		return Linear{}
 	case *ast.SelectorExpr:
 		return linAtom(types.ExprString(x))
